@@ -13,7 +13,7 @@ namespace Osmium.XmlFmt
 open Osmium.Osm Osmium.TextFmt Osmium.Conv Osmium.Utf8
 
 theorem object_rt2 (o : Opts) (hco : o.changeOps = false) (obj : Object) (h : XObjOK2 obj) (st : RSt)
-    (hs : st.stack = [Ctx.osm]) (hc : st.cur = none) (hct : st.commentText = []) :
+    (hs : st.stack = [Ctx.osm]) (hc : st.cur = none) (hct : st.commentText = []) (hcp : st.commentPending = false) :
     ∃ ps, objectPieces o obj = .ok ps ∧ runPieces ps st = .ok { markDone st with out := project o obj :: st.out } := by
   have hp : ∀ m, parentCtx o m = Ctx.osm := by intro m; simp [parentCtx, hco]
   cases obj with
@@ -21,16 +21,17 @@ theorem object_rt2 (o : Opts) (hco : o.changeOps = false) (obj : Object) (h : XO
   | way m ns => exact object_rt o _ (show XObjOK (Object.way m ns) from h) st [] (by rw [hs]; simp [objMeta, hp]) hc
   | relation m ms => exact object_rt o _ (show XObjOK (Object.relation m ms) from h) st [] (by rw [hs]; simp [objMeta, hp]) hc
   | changeset id ca cl nc ncm uid user bl tr tags cs =>
-    exact changeset_rt o id ca cl nc ncm uid user bl tr tags cs h st .osm (Or.inl rfl) [] hs hc hct
+    exact changeset_rt o id ca cl nc ncm uid user bl tr tags cs h st .osm (Or.inl rfl) [] hs hc hct hcp
 
 /-- a block of a plain (non-change) file, changesets allowed -/
 theorem block_run2 (o : Opts) (hco : o.changeOps = false) : ∀ (objs : List Object) (_ : ∀ obj ∈ objs, XObjOK2 obj)
-    (st : RSt) (_ : st.stack = [Ctx.osm]) (_ : st.cur = none) (_ : st.commentText = []) (tail : List Piece),
+    (st : RSt) (_ : st.stack = [Ctx.osm]) (_ : st.cur = none) (_ : st.commentText = []) (_ : st.commentPending = false)
+    (tail : List Piece),
     ∃ ps, blockPieces o 0 objs = .ok ps ∧ runPieces (ps ++ tail) st = runPieces tail (blockResult o objs st) := by
   intro objs
   induction objs with
   | nil =>
-    intro _ st hs hc hct tail
+    intro _ st hs hc hct hcp tail
     refine ⟨[], by simp [blockPieces, hco], ?_⟩
     have : blockResult o [] st = st := by
       rcases st with ⟨stack, header, version, headerOut, cur, out, ct⟩
@@ -38,20 +39,22 @@ theorem block_run2 (o : Opts) (hco : o.changeOps = false) : ∀ (objs : List Obj
       simp [blockResult, rootCtx, hco]
     rw [this]; rfl
   | cons obj objs ih =>
-    intro hall st hs hc hct tail
-    obtain ⟨ps, hps, hrun⟩ := object_rt2 o hco obj (hall obj (by simp)) st hs hc hct
+    intro hall st hs hc hct hcp tail
+    obtain ⟨ps, hps, hrun⟩ := object_rt2 o hco obj (hall obj (by simp)) st hs hc hct hcp
     have hs2 : ({ markDone st with out := project o obj :: st.out } : RSt).stack = [Ctx.osm] := by
       rw [← hs]; cases hh : st.headerOut <;> simp [markDone, hh]
     have hc2 : ({ markDone st with out := project o obj :: st.out } : RSt).cur = none := by
       rw [← hc]; cases hh : st.headerOut <;> simp [markDone, hh]
     have hct2 : ({ markDone st with out := project o obj :: st.out } : RSt).commentText = [] := by
       rw [← hct]; cases hh : st.headerOut <;> simp [markDone, hh]
+    have hcp2 : ({ markDone st with out := project o obj :: st.out } : RSt).commentPending = false := by
+      rw [← hcp]; cases hh : st.headerOut <;> simp [markDone, hh]
     obtain ⟨qs, hqs, hrun2⟩ := ih (fun x hx => hall x (by simp [hx])) { markDone st with out := project o obj :: st.out }
-      hs2 hc2 hct2 tail
+      hs2 hc2 hct2 hcp2 tail
     refine ⟨ps ++ qs, by simp [blockPieces, hco, hps, hqs], ?_⟩
     rw [List.append_assoc, runPieces_append, hrun]
     simp only [bindE_ok]
-    rw [hrun2, blockResult_step o st st ⟨rfl, rfl, rfl, rfl, rfl, Or.inl rfl⟩]
+    rw [hrun2, blockResult_step o st st ⟨rfl, rfl, rfl, rfl, rfl, rfl, Or.inl rfl⟩]
 
 /-- the objects a file may carry: everything of the XML domain, changesets only outside change files -/
 def FileObjsOK (o : Opts) (objs : List Object) : Prop :=
@@ -66,10 +69,10 @@ theorem XObjOK_of (obj : Object) (h : XObjOK2 obj) (hn : isChangeset obj = false
 
 /-- one block of any file -/
 theorem block_run3 (o : Opts) (objs : List Object) (hall : FileObjsOK o objs) (st : RSt) (hs : st.stack = [rootCtx o])
-    (hc : st.cur = none) (hct : st.commentText = []) (tail : List Piece) :
+    (hc : st.cur = none) (hct : st.commentText = []) (hcp : st.commentPending = false) (tail : List Piece) :
     ∃ ps, blockPieces o 0 objs = .ok ps ∧ runPieces (ps ++ tail) st = runPieces tail (blockResult o objs st) := by
   cases hco : o.changeOps
-  · exact block_run2 o hco objs hall.1 st (by rw [hs]; simp [rootCtx, hco]) hc hct tail
+  · exact block_run2 o hco objs hall.1 st (by rw [hs]; simp [rootCtx, hco]) hc hct hcp tail
   · exact block_run o objs (fun obj ho => XObjOK_of obj (hall.1 obj ho) (hall.2 hco obj ho)) 0 (by omega) (fun _ => rfl) st
       (by rw [hs]; simp [stackOf]) hc tail
 
@@ -78,11 +81,11 @@ theorem block_run3 (o : Opts) (objs : List Object) (hall : FileObjsOK o objs) (s
 /-- the reader state after some blocks carrying `objs` altogether -/
 def After (o : Opts) (st : RSt) (objs : List Object) (r : RSt) : Prop :=
   r.stack = [rootCtx o] ∧ r.header = st.header ∧ r.version = st.version ∧ r.cur = st.cur ∧
-  r.commentText = st.commentText ∧ r.out = (objs.map (project o)).reverse ++ st.out ∧
+  r.commentText = st.commentText ∧ r.commentPending = st.commentPending ∧ r.out = (objs.map (project o)).reverse ++ st.out ∧
   (r.headerOut = st.headerOut ∨ (objs ≠ [] ∧ r.headerOut = (markDone st).headerOut))
 
 theorem After.refl (o : Opts) (st : RSt) (hs : st.stack = [rootCtx o]) : After o st [] st :=
-  ⟨hs, rfl, rfl, rfl, rfl, by simp, Or.inl rfl⟩
+  ⟨hs, rfl, rfl, rfl, rfl, rfl, by simp, Or.inl rfl⟩
 
 theorem after_block (o : Opts) (st : RSt) (objs : List Object) (hs : st.stack = [rootCtx o]) :
     After o st objs (blockResult o objs st) := by
@@ -93,9 +96,9 @@ theorem after_block (o : Opts) (st : RSt) (objs : List Object) (hs : st.stack = 
 
 theorem After.trans {o : Opts} {st r r' : RSt} {a b : List Object} (h1 : After o st a r) (h2 : After o r b r') :
     After o st (a ++ b) r' := by
-  obtain ⟨a1, a2, a3, a4, a5, a6, a7⟩ := h1
-  obtain ⟨b1, b2, b3, b4, b5, b6, b7⟩ := h2
-  refine ⟨b1, b2.trans a2, b3.trans a3, b4.trans a4, b5.trans a5, ?_, ?_⟩
+  obtain ⟨a1, a2, a3, a4, a5, a5', a6, a7⟩ := h1
+  obtain ⟨b1, b2, b3, b4, b5, b5', b6, b7⟩ := h2
+  refine ⟨b1, b2.trans a2, b3.trans a3, b4.trans a4, b5.trans a5, b5'.trans a5', ?_, ?_⟩
   · rw [b6, a6]; simp
   · rcases st with ⟨stack, header, version, headerOut, cur, out, ct⟩
     rcases r with ⟨stack1, header1, version1, headerOut1, cur1, out1, ct1⟩
@@ -109,20 +112,21 @@ theorem After.trans {o : Opts} {st r r' : RSt} {a b : List Object} (h1 : After o
     · right; refine ⟨by simp [an], ?_⟩; rw [b7]; cases headerOut <;> simp_all [markDone]
 
 theorem blocks_run (o : Opts) : ∀ (blocks : List (List Object)) (_ : ∀ b ∈ blocks, FileObjsOK o b) (st : RSt)
-    (_ : st.stack = [rootCtx o]) (_ : st.cur = none) (_ : st.commentText = []) (tail : List Piece),
+    (_ : st.stack = [rootCtx o]) (_ : st.cur = none) (_ : st.commentText = []) (_ : st.commentPending = false)
+    (tail : List Piece),
     ∃ bs r, mapE (blockPieces o 0) blocks = .ok bs ∧ After o st blocks.flatten r ∧
       runPieces (bs.flatten ++ tail) st = runPieces tail r := by
   intro blocks
   induction blocks with
   | nil =>
-    intro _ st hs _ _ tail
+    intro _ st hs _ _ _ tail
     exact ⟨[], st, rfl, by simpa using After.refl o st hs, rfl⟩
   | cons b blocks ih =>
-    intro hall st hs hc hct tail
+    intro hall st hs hc hct hcp tail
     have haft := after_block o st b hs
     obtain ⟨cs, r, hcs, har, hrun2⟩ := ih (fun x hx => hall x (by simp [hx])) (blockResult o b st) haft.1
-      (haft.2.2.2.1.trans hc) (haft.2.2.2.2.1.trans hct) tail
-    obtain ⟨ps, hps, hrun⟩ := block_run3 o b (hall b (by simp)) st hs hc hct (cs.flatten ++ tail)
+      (haft.2.2.2.1.trans hc) (haft.2.2.2.2.1.trans hct) (haft.2.2.2.2.2.1.trans hcp) tail
+    obtain ⟨ps, hps, hrun⟩ := block_run3 o b (hall b (by simp)) st hs hc hct hcp (cs.flatten ++ tail)
     refine ⟨ps :: cs, r, by rw [mapE, hps, bindE_ok, hcs, bindE_ok], ?_, ?_⟩
     · simpa using After.trans haft har
     · rw [List.flatten_cons, List.append_assoc, hrun, hrun2]
@@ -134,8 +138,8 @@ theorem file_run_blocks (o : Opts) (h : Header) (blocks : List (List Object)) (h
       ∃ r : RSt, runPieces ps {} = .ok r ∧ (markDone r).headerOut.getD (markDone r).header = projectHeader o h ∧
         (markDone r).out.reverse = blocks.flatten.map (project o) := by
   have hs0 : (stHeader o h).stack = [rootCtx o] := by simp [stHeader, stRoot]
-  obtain ⟨bs, r0, hbs, haft, hrun⟩ := blocks_run o blocks hall (stHeader o h) hs0 rfl rfl (endPieces o)
-  obtain ⟨a1, a2, a3, a4, a5, a6, a7⟩ := haft
+  obtain ⟨bs, r0, hbs, haft, hrun⟩ := blocks_run o blocks hall (stHeader o h) hs0 rfl rfl rfl (endPieces o)
+  obtain ⟨a1, a2, a3, a4, a5, a5', a6, a7⟩ := haft
   have hroot : rootCtx o = .osm ∨ rootCtx o = .osmChange := by unfold rootCtx; cases o.changeOps <;> simp
   have hend : endElement {} r0 = .ok { markDone r0 with stack := [] } := by
     generalize r0 = r at a1
